@@ -10,6 +10,7 @@
 //	c20 gen    <stream> <seed> <ncases> <ops-out>
 //	c20 exec   <stream> <ops-in> <impl-out>
 //	c20 oracle <stream> <ops-in> <verdict-out>
+//	c20 finding <out>      reproduce the recorded observations on the real code (one line each)
 package main
 
 import (
@@ -30,6 +31,8 @@ func main() {
 		gen(os.Args[2], seed, n, os.Args[5])
 	case "exec":
 		execOps(os.Args[2], os.Args[3], os.Args[4])
+	case "finding":
+		findings(os.Args[2])
 	case "corpus":
 		corpus(os.Args[2], os.Args[3])
 	case "oracle":
